@@ -28,6 +28,10 @@ func Psi_I(p types.WorkPackage, c types.CoreIndex, authorizerCode types.ByteSequ
 			ServiceID: nil,
 			CoreID:    &c,
 		},
+		// fetch in the is-authorized context sees the work package (selectors 7..13) besides the constants
+		RefineArgs: RefineArgs{
+			WorkPackage: &p,
+		},
 	}
 
 	resultM := Psi_M(StandardCodeFormat(authorizerCode), 0, types.IsAuthorizedGas, Argument(encoded), IsAuthorizedOmegas, addition)
